@@ -3,7 +3,7 @@
 # (--all: against all checks); writes seeded/<id>/<k>/result[.all].txt
 cd /verif
 all=""; if [ "${1:-}" = "--all" ]; then all=1; shift; fi
-for d in ${@:-seeded/*/* seeded2/*/* seeded3/*/* seeded4/*/*}; do
+for d in ${@:-seeded/*/* seeded2/*/* seeded3/*/* seeded4/*/* seeded5/*/*}; do
   [ -f $d/patch.diff ] || continue
   id=$(basename $(dirname $d))
   if [ -n "$all" ]; then out=$d/result.all.txt; props="$(tools/relevant_props.sh $d/patch.diff) $id"; else out=$d/result.txt; props=$id; fi
